@@ -124,7 +124,15 @@ struct C16 : Scenario {
 		else if (mode == 3) plen = 24 * (1 + rng.below(40)) + rng.below(27) - 13;
 		else if (mode == 4) plen = 0;
 		else if (mode == 5) plen = rng.below(3000);
-		else if (mode == 6) plen = (tier == "quick" ? 20000 : 255 * 1024) - rng.below(40);
+		else if (mode == 6) {
+			// long self-extractor stubs: around 128 KiB, in between, and right below the 256 KiB limit
+			switch (rng.below(tier == "quick" ? 6 : 3)) {
+				case 0: plen = 131072 - 20 + rng.below(60); break;
+				case 1: plen = 140000 + rng.below(100000); break;
+				case 2: plen = 255 * 1024 - rng.below(40); break;
+				default: plen = 20000 - rng.below(40); break;
+			}
+		}
 		// mode 7: decoy
 		if (mode == 7) {
 			size_t fill = rng.below(200);
